@@ -109,6 +109,78 @@ def o3_main_loop(chk, bprog, first, n, prop='C17', only=None, oname='O3'):
     chk.end(ob)
 
 
+def o4_admin_shutdown(chk, prog):
+    """The admin console's SHUTDOWN: the same as SIGINT -- handle_admin from MIR sends SIGINT to the pooler's own process id (and to nothing else,
+    for no other command), and answers the admin client."""
+    ob = chk.begin('O4-admin-shutdown', 'admin::handle_admin (real coroutine) on the admin commands SHUTDOWN (several spellings) and, for contrast, SET / RELOAD-free commands: '
+                   'nix::sys::signal::kill is called exactly once for a SHUTDOWN, with the pooler\'s OWN process id (symbolic) and SIGINT, the admin client gets '
+                   'CommandComplete SHUTDOWN + ReadyForQuery; no other command signals anything. From there on it is the SIGINT arm of main.rs (O3)', {})
+    ha = prog.funcs.get('handle_admin')
+    if ha is None:
+        raise Inconclusive('cannot locate admin::handle_admin')
+    ip = chk.interp(prog, 'O4-admin-shutdown')
+    install_stats_noops(ip)
+    base = list(ip.overrides)
+    cases = [(b'SHUTDOWN', True), (b'shutdown;', True), (b'  ShutDown  ;', True), (b'SET client_encoding TO utf8', False), (b'SHUTDOWNS', False)]
+
+    def harness(ip_):
+        ip_.overrides[:] = base
+        k = ip_.choose(len(cases), 'admin_command')
+        q, is_shutdown = cases[k]
+        calls = []
+        pid = ip_.fresh(32, 'own_pid')
+        ip_.assume(z3.ULT(pid.v, 1 << 31))
+        ip_.overrides[:0] = [
+            (re.compile(r'signal::kill(?:::<.*>)?$'), lambda c, p_, sig: (calls.append((p_, sig)), ok(ip_, unit()))[1]),
+            (re.compile(r'^std::process::id$'), lambda c: pid),
+            (re.compile(r'Pid::from_raw$'), lambda c, raw: Opaque('Pid', 'pid', raw)),
+        ]
+        body = [BV(8, x) for x in b'Q' + (len(q) + 5).to_bytes(4, 'big') + q + b'\0']
+        st = StreamV([], 'admin_client')
+        csm = Ptr(Cell(Agg([MapV('hashmap')], 'Lock'), 'csmap'))
+        try:
+            r = ip_.drive(ip_.call_function(ha, [Ptr(Cell(st, 'stream')), Seq(body, 'bytesmut'), csm]))
+        except Panic as p:
+            if not is_shutdown:
+                return
+            raise Inconclusive('handle_admin panic: ' + p.msg)
+        except Inconclusive:
+            if not is_shutdown:
+                if calls:
+                    pass
+                else:
+                    return          # (a command this harness has no environment for; it did not signal anything before that)
+            else:
+                raise
+        ob.nontrivial += 1
+        what = None
+        if is_shutdown:
+            if len(calls) != 1:
+                what = 'the admin command %r sends %d signals (exactly one SIGINT to the pooler itself is required)' % (q.decode(), len(calls))
+            else:
+                p_, sig = calls[0]
+                raw = p_.data if isinstance(p_, Opaque) else None
+                signame = getattr(sig, 'ty', None) or repr(sig)
+                if not isinstance(raw, BV) or ip_.is_sat(z3.Extract(31, 0, z3.ZeroExt(32, raw.z()) if raw.w < 32 else raw.z()) != pid.z()):
+                    what = 'the admin command %r signals process %r, not the pooler\'s own process id' % (q.decode(), raw)
+                elif 'SIGINT' not in str(signame):
+                    what = 'the admin command %r sends %s, not SIGINT (the graceful-shutdown signal of main.rs)' % (q.decode(), signame)
+                else:
+                    out = bytes(b.v for b in st.out if b.concrete)
+                    if b'SHUTDOWN\x00' not in out or not out.endswith(b'Z\x00\x00\x00\x05I'):
+                        what = 'the admin client is not answered with CommandComplete SHUTDOWN + ReadyForQuery'
+        elif calls:
+            what = 'the admin command %r, which is not SHUTDOWN, sends a signal' % (q.decode(),)
+        if what:
+            chk.report(ob, 'C17/O4/admin-shutdown', what, {'command': q.decode()},
+                       {'commands': [{'op': 'main_process', 'script': ['client', 'counted', 'admin_shutdown', 'left']}], 'expect': ['c17_main']})
+        if len(ob.samples) < 3:
+            ob.samples.append({'command': q.decode(), 'signals': len(calls)})
+    ip.explore(harness)
+    chk.absorb(ob, ip)
+    chk.end(ob)
+
+
 def o2_entrypoint(chk, prog):
     """client_entrypoint from MIR: whatever the first packet is (startup / SSL request without TLS configured / cancel request / junk) and
     however startup and the session end, the drain channel -- the count main() waits on to exit "once all clients have left" -- gets
@@ -230,11 +302,12 @@ def main(chk):
         'shutdown broadcast may arrive at ANY select! (solver\'s choice, either polling order of the two select! branches): the signal is acted '
         'on only while the session holds no server (a transaction in progress is finished first, its statements forwarded and answered as '
         'usual), the client is then sent "terminating connection due to administrator command" and the session ends; nothing it sent '
-        'before is lost.  NOT decided: the admin SHUTDOWN command reaching the process as SIGINT (nix::kill), main() before block_on, OS-level signal delivery.')
+        'before is lost.  (O4) The admin console\'s SHUTDOWN: admin::handle_admin from MIR sends exactly one SIGINT, to the pooler\'s own process id, and answers the admin client; no other '
+        'command signals anything.  NOT decided: main() before block_on, OS-level signal delivery.')
     chk.assumptions += [
         'main.rs: OS signal delivery, tokio::spawn, mpsc FIFO order, broadcast delivery to existing subscribers and tokio::time::interval (first tick immediate) are library contracts; '
         'event scripts are bounded (4 events quick, 5 thorough); a client task acts on the drain channel as client_entrypoint\'s contract (O2) says',
-        'the admin SHUTDOWN command is taken to deliver SIGINT to the process (admin.rs: nix::sys::signal::kill) -- not decided',
+        'nix::sys::signal::kill delivers the signal it is given to the process it is given (library / OS contract)',
         'session-mode clients hold their server for the whole session and therefore never observe the signal (the property speaks of transaction-mode clients)',
         'tokio broadcast::Receiver::recv yields a sent value exactly once (library contract)',
     ]
@@ -259,6 +332,10 @@ def main(chk):
         chk.parallel(_dispatch, [(o3_main_loop, (bprog, first, 5 if chk.thorough else 4)) for first in ('',) + mainloop.EVENTS if first not in ('counted', 'left', 'timeout')])
     except Inconclusive as e:
         chk.note_inconclusive('O3-main-loop: %s' % e)
+    try:
+        o4_admin_shutdown(chk, prog)
+    except Inconclusive as e:
+        chk.note_inconclusive('O4-admin-shutdown: %s' % e)
     hobl.handle_obligations(chk, prog, {'C17'}, ['shutdown'])
 
 
